@@ -20,6 +20,7 @@ which no other environment ever existed):
 """
 from __future__ import annotations
 
+import asyncio
 import gc
 import os
 import re
@@ -31,10 +32,11 @@ sys.path.insert(0, os.path.dirname(os.path.dirname(os.path.abspath(__file__))))
 
 from simkit import clock, driver, fork  # noqa: E402
 from simkit.driver import bump, new_result, shrink_list  # noqa: E402
+from simkit.loop import SimDeadlock, SimLoop  # noqa: E402
 from simkit.rng import Rng, digest  # noqa: E402
 from simkit.threads import SimThreads  # noqa: E402
 from workload import gen as G  # noqa: E402
-from workload.runtime import build_data, outcome  # noqa: E402
+from workload.runtime import build_data, outcome, outcome_async  # noqa: E402
 
 import liquid  # noqa: E402
 from liquid import DictLoader, Environment, Mode  # noqa: E402
@@ -72,9 +74,55 @@ def make_mark_tag(label):
     return MarkTag
 
 
+LOOP_REF = [None]    # the SimLoop of the async batch in progress (None: loaders do not suspend)
+
+
+class LatencyDictLoader(DictLoader):
+    """DictLoader whose asynchronous path suspends for a seeded latency while a SimLoop runs."""
+
+    async def get_source_async(self, env, template_name, *, context=None, **kwargs):
+        loop = LOOP_REF[0]
+        if loop is not None:
+            await loop.latency("dictloader")
+        return self.get_source(env, template_name, context=context, **kwargs)
+
+
+class ConstructionFault(Exception):
+    pass
+
+
+def dying(fail_at):
+    """Class decorator: an Environment whose k-th add_tag raises (user code failing in the middle
+    of construction; the half-built environment is abandoned)."""
+    def wrap(cls):
+        count = [0]
+
+        def add_tag(self, tag):
+            count[0] += 1
+            if count[0] >= fail_at:
+                raise ConstructionFault("add_tag #%d failed" % count[0])
+            return cls.add_tag(self, tag)
+        return type("Dying" + cls.__name__, (cls,), {"add_tag": add_tag})
+    return wrap
+
+
+def guest_tree(spec):
+    """A template that shows which environment evaluates it: that environment's custom filter and
+    tag labels, its (possibly overridden) upcase and its liquid-tag comment marker."""
+    nodes = [["text", "G("]]
+    if spec["custom"].get("filter"):
+        nodes.append(["out", "'v' | mark", ""])
+    nodes.append(["out", "'w' | upcase", ""])
+    if spec["custom"].get("tag"):
+        nodes.append(["tag", "marktag", "", ""])
+    nodes.append(["liquid", [["tag", "#", "note", ""], ["tag", "echo", "'z' | upcase", ""]]])
+    nodes.append(["text", ")"])
+    return nodes
+
+
 def build_env_c11(spec, delims, loader_sources):
     """Environment for a C11 recipe incl. the mutations applied so far."""
-    env = G.build_env(spec["recipe"], DictLoader(dict(loader_sources)), delims)
+    env = G.build_env(spec["recipe"], LatencyDictLoader(dict(loader_sources)), delims)
     apply_custom(env, spec["label"], spec["custom"])
     for m in spec["mutations"]:
         apply_mutation(env, spec["label"], m)
@@ -255,7 +303,8 @@ class C11:
     ]
     REQUIRED_REACH = ["reach.order_variation_compared", "reach.pristine_compared", "reach.equal_hash_envs_alive", "reach.flood_rolled_parser_cache", "reach.parse_after_mutation",
                       "reach.interleaved_envs", "reach.implicit", "reach.custom_delims", "reach.dropped_env",
-                      "reach.regex_meta_delims", "reach.letter_delims", "reach.thread_switch_inside_op"]
+                      "reach.regex_meta_delims", "reach.letter_delims", "reach.thread_switch_inside_op",
+                      "reach.async_batch", "reach.embedded_guest", "fault.env_construction_failed"]
 
     def process_init(self):
         fork.init_zygote(evaluate_probe)
@@ -339,7 +388,7 @@ class C11:
         for _ in range(nops):
             uid += 1
             k = rng.weighted([("new_env", 3), ("parse", 3), ("render", 8), ("mutate", 2), ("drop", 1), ("implicit", 1),
-                              ("flood", 0.6)])
+                              ("flood", 0.6), ("async_batch", 1.5), ("failed_env", 0.8), ("embed", 1.2)])
             op = {"op": k, "uid": uid, "spec": rng.randrange(len(specs))}
             if k in ("parse", "render"):
                 op["tree"] = rng.randrange(len(trees))
@@ -354,6 +403,16 @@ class C11:
             elif k == "flood":
                 op["n"] = rng.choice([129, 140, 300])
                 op["same_delims"] = rng.chance(0.5)
+            elif k == "async_batch":
+                # several environments render concurrently on one event loop (their partials share names)
+                op["items"] = [{"spec": rng.randrange(len(specs)), "tree": rng.randrange(len(trees)),
+                                "data": rng.randrange(len(datas)), "uid": uid * 100 + j}
+                               for j in range(rng.randint(2, 4))]
+                op["lat_seed"] = rng.randrange(1 << 30)
+            elif k == "failed_env":
+                op["fail_at"] = rng.randint(1, 24)     # the add_tag call of the constructor that raises
+            elif k == "embed":
+                op["guest"] = rng.randrange(len(specs))
             ops.append(op)
         sc = {"specs": specs, "delim_sets": delim_sets, "trees": trees, "datas": datas, "ops": ops}
         if rng.chance(0.3):
@@ -472,13 +531,14 @@ class C11:
                     bump(st, "reach.dropped_env")
             elif k == "flood":
                 from liquid.parser import get_parser
-                before = get_parser.cache_info()
+                info = getattr(get_parser, "cache_info", None)   # (a reach probe only: the memo may be
+                before = info() if info else None                # implemented differently one day)
                 d = delims_of(i) if op["same_delims"] else G.DEFAULT_DELIMS
                 for n in range(op["n"]):
                     Environment(tag_start_string=d["ts"], tag_end_string=d["te"], statement_start_string=d["os"],
                                 statement_end_string=d["oe"])
-                after = get_parser.cache_info()
-                if after.currsize >= (after.maxsize or 1 << 30) and after.misses - before.misses >= 128:
+                after = info() if info else None
+                if after and after.currsize >= (after.maxsize or 1 << 30) and after.misses - before.misses >= 128:
                     bump(st, "reach.flood_rolled_parser_cache")
             elif k == "implicit":
                 d = delims_of(i)
@@ -505,6 +565,85 @@ class C11:
                 history.append([op["uid"], "implicit", got[0], got[1] if got[0] == "err" else digest(got[1])])
                 res["probes"].append({"uid": op["uid"], "op": op, "kind": "implicit", "key": key, "probe": probe,
                                       "got": got, "delims": d})
+            elif k == "failed_env":
+                # a construction that fails half way (user code raising inside add_tag): the
+                # abandoned environment must leave nothing behind for the ones created later
+                spec = {**cur_spec(i), "mutations": []}
+                try:
+                    G.build_env(spec["recipe"], LatencyDictLoader({}), delims_of(i), subclass=dying(op["fail_at"]))
+                    history.append([op["uid"], "failed_env", "constructed"])
+                except ConstructionFault:
+                    bump(st, "fault.env_construction_failed")
+                    history.append([op["uid"], "failed_env", "raised"])
+            elif k == "embed":
+                # a template parsed by environment j, handed as data to a template of environment i
+                # and placed with {% render guest %}: it must behave as it does on its own
+                j = op["guest"]
+                env_i, env_j = ensure(i), ensure(j)
+                note(i)
+                sj = cur_spec(j)
+                gsrc = G.render_source(guest_tree(sj), with_lc(delims_of(j), sj["recipe"]))
+                di = delims_of(i)
+                hsrc = "[%s render guest %s]" % (di["ts"], di["te"])
+                guest = outcome(lambda: env_j.from_string(gsrc))
+                if guest[0] == "ok":
+                    alone = norm(outcome(lambda: guest[1].render()))
+                    emb = norm(outcome(lambda: env_i.from_string(hsrc).render(guest=guest[1])))
+                    bump(st, "reach.embedded_guest")
+                    history.append([op["uid"], "embed", i, j, emb[0], alone[0]])
+                    if alone[0] == "ok" and emb != ("ok", "[" + alone[1] + "]"):
+                        add("independence", "embedding:%s" % ("output" if emb[0] == "ok" else emb[1]),
+                            {"op": op, "guest_alone": _brief(alone), "embedded_in_host": _brief(emb),
+                             "guest_source": gsrc, "host_source": hsrc})
+            elif k == "async_batch":
+                if nthreads:
+                    return        # one event loop per run; not from simulated threads
+                items = []
+                for it in op["items"]:
+                    ii = it["spec"]
+                    env = ensure(ii)
+                    note(ii)
+                    d = delims_of(ii)
+                    tr = tree_for(sc["trees"][it["tree"]], sc["specs"][ii]["recipe"])
+                    src = G.render_source(tr, with_lc(d, sc["specs"][ii]["recipe"]))
+                    items.append((it, ii, env, d, tr, src))
+                loop = SimLoop(Rng(op["lat_seed"], ("batch",)), step_cap=400000,
+                               lat_profile={"max": 0.01, "zero_p": 0.3, "stall_p": 0.0})
+                outs = {}
+
+                async def one(it, env, src, dspec):
+                    loop.streams[asyncio.current_task().get_name()] = loop.rng.fork("item", it["uid"])
+                    await loop.latency("start")
+                    async def go():
+                        t = env.from_string(src)
+                        return await t.render_async(**build_data(dspec, None))
+                    outs[it["uid"]] = norm(await outcome_async(go()))
+
+                async def root():
+                    ts = [loop.create_task(one(it, env, src, sc["datas"][it["data"]]), name="b%d" % it["uid"])
+                          for (it, ii, env, d, tr, src) in items]
+                    await asyncio.gather(*ts)
+                LOOP_REF[0] = loop
+                try:
+                    loop.run_sim(root())
+                except SimDeadlock:
+                    add("liveness", "liveness:deadlock", {"op": op})
+                    return
+                finally:
+                    LOOP_REF[0] = None
+                bump(st, "reach.async_batch")
+                bump(st, "async.suspensions", loop.suspensions)
+                for (it, ii, env, d, tr, src) in items:
+                    got = outs.get(it["uid"], ("err", "NoResult"))
+                    dspec = sc["datas"][it["data"]]
+                    spec = cur_spec(ii)
+                    csrc = G.render_source(tr, G.DEFAULT_DELIMS)
+                    key = digest(("p", spec, d, src, dspec, "render"))
+                    probe = {"kind": "probe", "spec": spec, "delims": d, "source": src, "canon_source": csrc,
+                             "data": dspec, "what": "render"}
+                    history.append([it["uid"], "async", ii, got[0], got[1] if got[0] == "err" else digest(got[1])])
+                    res["probes"].append({"uid": it["uid"], "op": {**op, "item": it}, "kind": "render", "key": key,
+                                          "probe": probe, "got": got, "delims": d})
             else:
                 env = ensure(i)
                 note(i)
@@ -609,9 +748,10 @@ class C11:
     def _compact(self, sc):
         """Drop specs, delimiter sets, trees and data no operation refers to (re-indexing)."""
         ops = sc["ops"]
-        us = sorted({op["spec"] for op in ops})
-        ut = sorted({op["tree"] for op in ops if "tree" in op})
-        ud = sorted({op["data"] for op in ops if "data" in op})
+        items = [it for op in ops for it in op.get("items", [])]
+        us = sorted({op["spec"] for op in ops} | {op["guest"] for op in ops if "guest" in op} | {it["spec"] for it in items})
+        ut = sorted({op["tree"] for op in ops if "tree" in op} | {it["tree"] for it in items})
+        ud = sorted({op["data"] for op in ops if "data" in op} | {it["data"] for it in items})
         udl = sorted({sc["specs"][i]["delims"] for i in us})
         sm, tm, dm, lm = ({v: i for i, v in enumerate(x)} for x in (us, ut, ud, udl))
         specs = [{**sc["specs"][i], "delims": lm[sc["specs"][i]["delims"]]} for i in us]
@@ -622,6 +762,11 @@ class C11:
                 op["tree"] = tm[op["tree"]]
             if "data" in op:
                 op["data"] = dm[op["data"]]
+            if "guest" in op:
+                op["guest"] = sm[op["guest"]]
+            if "items" in op:
+                op["items"] = [{**it, "spec": sm[it["spec"]], "tree": tm[it["tree"]], "data": dm[it["data"]]}
+                               for it in op["items"]]
             return op
         return {**sc, "specs": specs, "delim_sets": [sc["delim_sets"][i] for i in udl],
                 "trees": [sc["trees"][i] for i in ut] or sc["trees"][:1],
@@ -652,6 +797,10 @@ class C11:
         for j, ds in enumerate(sc["delim_sets"]):
             if ds != G.DEFAULT_DELIMS:
                 yield {**sc, "delim_sets": sc["delim_sets"][:j] + [dict(G.DEFAULT_DELIMS)] + sc["delim_sets"][j + 1:]}
+        for j, op in enumerate(sc["ops"]):
+            if op["op"] == "async_batch" and len(op["items"]) > 1:
+                for q in range(len(op["items"])):
+                    yield {**sc, "ops": sc["ops"][:j] + [{**op, "items": op["items"][:q] + op["items"][q + 1:]}] + sc["ops"][j + 1:]}
         for j, op in enumerate(sc["ops"]):
             if op["op"] == "flood" and op["n"] > 129:
                 yield {**sc, "ops": sc["ops"][:j] + [{**op, "n": 129}] + sc["ops"][j + 1:]}
